@@ -224,3 +224,16 @@ fn k_wire_group_by__error_reaches_groups() {
   assert!(g0.is(&[EV_N | 2, EV_E | 9]), "wire.group_by: a group did not get the source error (same payload) as its terminal");
   kani::cover!(true, "harness reaches its end");
 }
+
+// utils::Something: success(x).proceed() = just(x); error(e).proceed() = error(e) with the same payload object
+#[kani::proof]
+#[kani::unwind(4)]
+fn k_wire_something__proceed() {
+  let l1 = Log::new();
+  let _s1 = utils::Something::success(5u8).proceed().subscribe(move |x: u8| l1.push(EV_N | x as u32), move |e: RxError| l1.push(EV_E), move || l1.push(EV_C));
+  assert!(l1.is(&[EV_N | 5, EV_C]), "wire.something: success(x).proceed() must behave like just(x)");
+  let l2 = Log::new();
+  let _s2 = utils::Something::<u8>::error(err(4)).proceed().subscribe(move |x: u8| l2.push(EV_N), move |e: RxError| l2.push(EV_E | err_id(&e)), move || l2.push(EV_C));
+  assert!(l2.is(&[EV_E | 4]), "wire.something: error(e).proceed() must deliver the same error payload as its only event");
+  kani::cover!(true, "harness reaches its end");
+}
